@@ -11,19 +11,21 @@ BASE_NOTE = (
     "modelled by their documented semantics. "
 )
 
-# property id -> (technique, level text, note (what is modelled / assumed), design ref)
-CLAIMED = {
-    "C17": (
-        "Lean 4 theorems (omega) over Gen.Serial regenerated from utils.py by AST translation + differential run of the generated defs",
-        "The serial-number laws (irreflexive, antisymmetric off the half point, consistent with modular addition, translation invariant, "
-        "windowed transitivity; TSN successor/predecessor inverse) are Lean theorems for ALL integers in range, about Lean defs that "
-        "are re-translated from src/aiortc/utils.py and rtcsctptransport.py on every run, so a changed comparison re-checks every theorem. "
-        "The translated defs are also executed against the Python functions on boundary-biased pairs.",
-        "Part 2 of C17 (origin-independence of the stateful components) is carried by the per-component theorems listed in DESIGN.md §2/C17; "
-        "components whose model is not built yet are named there.",
-        "DESIGN.md §2 C17",
-    ),
-}
+def claimed():
+    """Every harness/props/Cnn.py that defines MANIFEST = {technique, text, note, design_ref} is claimed."""
+    import importlib
+    out = {}
+    d = os.path.join(VERIF, "harness", "props")
+    for f in sorted(os.listdir(d)):
+        if f.startswith("C") and f.endswith(".py"):
+            mod = importlib.import_module("harness.props." + f[:-3])
+            m = getattr(mod, "MANIFEST", None)
+            if m:
+                out[f[:-3]] = (m["technique"], m["text"], m["note"], m.get("design_ref", "DESIGN.md §2 " + f[:-3]))
+    return out
+
+
+CLAIMED = claimed()
 
 NOT_YET = {}
 
